@@ -118,6 +118,15 @@ pub fn cmd_sign(args: &[String]) {
                 if rc == "small_order_forgery" {
                     // R, A small order, S = 0: the equation can hold for any message
                     for r in small.iter() { for a in small.iter() { let mut s = [0u8; 64]; s[..32].copy_from_slice(r); fam.push((s, msg.clone(), *a, "R and A small order, S = 0".into())); } }
+                    // A small order, R = [S]B for a canonical S: with A the neutral element [k]A vanishes and the equation
+                    // holds for every message; with A of order 2, 4, 8 it holds whenever k is a multiple of the order
+                    for a in small.iter() { for _ in 0..3 {
+                        let mut sc: [u8; 32] = rng.arr(); sc[31] &= 0x0f;
+                        let mut r = [0u8; 32];
+                        unsafe { so::crypto_scalarmult_ed25519_base_noclamp(r.as_mut_ptr(), sc.as_ptr()) };
+                        let mut s = [0u8; 64]; s[..32].copy_from_slice(&r); s[32..].copy_from_slice(&sc);
+                        fam.push((s, msg.clone(), *a, "A small order, R = [S]B".into()));
+                    } }
                 } else if deviations == 0 {
                     fam.push((base, msg.clone(), pk, "honest".into()));
                 } else if rc == "bit_flipped" { for b in 0..256 { if thin && b % 37 != 0 { continue; } let mut s = base; s[b / 8] ^= 1 << (b % 8); fam.push((s, msg.clone(), pk, format!("R bit {}", b))); } }
